@@ -137,7 +137,7 @@ fn call_scoped_variable(rng: &mut Rng, out: &mut Out) {
     use crate::util::catch;
     use tree_sitter_graph::{ExecutionConfig, Identifier, NoCancellation, Variables};
     let arg = *rng.pick(&["plain", "with \"quotes\"", "back\\slash", "tab\there", "é ü", "\"", "a\\\"b", ""]);
-    let name = *rng.pick(&["zq_name", "lit", "x-y"]);
+    let name = *rng.pick(&["zq_name", "lit", "x-y", "nœud", "définition_1"]);
     // or: the scope is an optional / list-element capture that is present (written without its
     // quantifier, as everywhere in a block)
     let (written, text, source) = match rng.below(3) {
